@@ -20,10 +20,21 @@ import (
 // xb decodes a hex argument into a slice whose capacity equals its length (Go slice expressions check cap).
 func xb(s string) []byte {
 	b := aHex(s)
-	out := make([]byte, len(b))
+	// the caller's buffers are REUSED: the n-th input-only argument of an op lives in the same memory as the n-th one of
+	// the op before when it has the same length (a per-subscriber loop that fills one key buffer in place). An
+	// implementation that keeps a reference to its caller's slice (a cache key stored without copying) then sees "its"
+	// value change under it.
+	key := [2]int{len(constArgs), len(b)}
+	out, ok := xbPool[key]
+	if !ok {
+		out = make([]byte, len(b))
+		xbPool[key] = out
+	}
 	copy(out, b)
 	return constArg(out[:len(out):len(out)])
 }
+
+var xbPool = map[[2]int][]byte{}
 
 func buf(want string, n int) []byte {
 	switch want {
